@@ -85,14 +85,20 @@ func (m SliceDotsMatcher) Match(got reflect.Value, d data.Data, r Region) (data.
 		return d, false
 	}
 
-	for i, section := range m.Sections[1:] {
-		idx, d, ok = findSection(m.Dots[i], section, gotItems, d, r, idx)
-		if !ok {
-			return d, false
-		}
-	}
+	return m.matchSections(1, gotItems, d, r, idx)
+}
 
-	return d, idx == len(gotItems)
+// matchSections matches m.Sections[k:] against got[idx:]. Each section is
+// tried at successive positions, left to right, and a position is kept only
+// if the remaining sections (and the end of the list) can be matched after
+// it, so an early choice never rules out a match that a later one allows.
+func (m SliceDotsMatcher) matchSections(k int, got []reflect.Value, d data.Data, r Region, idx int) (data.Data, bool) {
+	if k == len(m.Sections) {
+		return d, idx == len(got)
+	}
+	return findSection(m.Dots[k-1], m.Sections[k], got, d, r, idx, func(newIdx int, d data.Data) (data.Data, bool) {
+		return m.matchSections(k+1, got, d, r, newIdx)
+	})
 }
 
 // Returns Region for items[start:end].
@@ -129,29 +135,39 @@ func matchPrefix(want []Matcher, got []reflect.Value, d data.Data, r Region, idx
 }
 
 // findSection attempts to match want starting at got[idx], moving onto idx+1,
-// idx+2, and so on until a match is found. Returns the new index for the
-// remaining matches.
+// idx+2, and so on until a match is found after which rest, called with the
+// new index for the remaining matches, succeeds too.
 //
 // Invariant: If ok is true, a list of skipped items will have been pushed to
 // Data.
-func findSection(dots token.Pos, want []Matcher, got []reflect.Value, d data.Data, r Region, idx int) (newIdx int, _ data.Data, ok bool) {
+func findSection(
+	dots token.Pos, want []Matcher, got []reflect.Value, d data.Data, r Region, idx int,
+	rest func(newIdx int, d data.Data) (data.Data, bool),
+) (_ data.Data, ok bool) {
 	// Special case: Looking for "..." at the end of the list. Skip everything
 	// in got.
 	if len(want) == 0 {
 		r := sectionRegion(got, r, idx, len(got))
 		d := pushSliceDotsSkipped(d, dots, got[idx:], r)
-		return matchPrefix(want, got, d, r, len(got))
+		newIdx, newD, ok := matchPrefix(want, got, d, r, len(got))
+		if !ok {
+			return d, false
+		}
+		return rest(newIdx, newD)
 	}
 
 	for i := idx; i < len(got); i++ {
 		r := sectionRegion(got, r, idx, i)
 		newIdx, newD, ok := matchPrefix(want, got, pushSliceDotsSkipped(d, dots, got[idx:i], r), r, i)
-		if ok {
-			return newIdx, newD, ok
+		if !ok {
+			continue
+		}
+		if restD, ok := rest(newIdx, newD); ok {
+			return restD, true
 		}
 	}
 
-	return idx, d, false
+	return d, false
 }
 
 // SliceDotsReplacer replaces target nodes and reproduces the values captured by
